@@ -41,6 +41,17 @@ func NewConnSniffer(conn net.Conn, timeout time.Duration) *ConnSniffer {
 // call-sites remain correct if ConnSniffer's internals are refactored.
 func (s *ConnSniffer) UnderlyingConn() net.Conn { return s.Conn }
 
+// CloseWrite forwards a write-shutdown to the wrapped connection. Without it
+// the relay cannot pass the upstream's end of stream on to a sniffed client
+// (the embedded net.Conn interface hides the TCP connection's CloseWrite), and
+// the client only sees it when the whole relay is torn down.
+func (s *ConnSniffer) CloseWrite() error {
+	if wc, ok := s.Conn.(interface{ CloseWrite() error }); ok {
+		return wc.CloseWrite()
+	}
+	return nil
+}
+
 func (s *ConnSniffer) Read(p []byte) (n int, err error) {
 	return s.Sniffer.Read(p)
 }
